@@ -12,6 +12,7 @@ mod m9;
 mod m10;
 mod cli;
 mod corner;
+mod m11;
 mod m5p;
 mod util;
 use util::*;
@@ -62,6 +63,8 @@ fn main() {
         ("c17", None) => m9::run_c17(&args),
         ("c17", Some(p)) => m5::replay(&args, "C17", p),
         ("c18", None) => m10::run_c18(&args),
+        ("trace", None) => m11::run_trace(&args),
+        ("trace", Some(p)) => m5::replay(&args, &args.property.clone(), p),
         ("big", None) => m10::run_big(&args),
         ("corner", None) => m5::run_corner_job(&args),
         ("corner", Some(p)) => m5::replay(&args, &args.property.clone(), p),
